@@ -245,6 +245,16 @@ func genLarge(t *rapid.T) Case {
 		c.Hi = pbt.Size(420) // hundreds of members (thorough tier: well over a thousand)
 	}
 	v := func(label string, maxN int) []int {
+		if huge && rapid.IntRange(0, 15).Draw(t, "ladder-args") == 9 {
+			// one call past the sizes at which an implementation may switch strategy
+			k := []int{513, 1025, 2049}[rapid.IntRange(0, 2).Draw(t, "ladder-size")]
+			a, b := rapid.IntRange(0, c.Hi).Draw(t, "ladder-a"), rapid.IntRange(1, 12).Draw(t, "ladder-b")
+			out := make([]int, k)
+			for i := range out {
+				out[i] = (a + i*b + (i*i)%7) % (c.Hi + 1)
+			}
+			return out
+		}
 		if huge && rapid.IntRange(0, 3).Draw(t, "many-args") == 0 {
 			return rapid.SliceOfN(rapid.IntRange(0, c.Hi), 9, 40).Draw(t, label)
 		}
